@@ -403,14 +403,16 @@ func (cs *connState) LookupFID(fid fid) (*fidRef, bool) {
 // This fid starts with a reference count of one. If a fid exists in
 // the slot already it is closed, per the specification.
 func (cs *connState) InsertFID(fid fid, newRef *fidRef) {
-	cs.fidMu.Lock()
-	defer cs.fidMu.Unlock()
-	origRef, ok := cs.fids[fid]
-	if ok {
-		defer origRef.DecRef()
-	}
 	newRef.IncRef()
+	cs.fidMu.Lock()
+	origRef, ok := cs.fids[fid]
 	cs.fids[fid] = newRef
+	cs.fidMu.Unlock()
+	if ok {
+		// Drop the replaced reference without holding fidMu: the last
+		// DecRef calls into the backend (File.Close).
+		origRef.DecRef()
+	}
 }
 
 // Deletefid removes the given fid.
@@ -418,12 +420,14 @@ func (cs *connState) InsertFID(fid fid, newRef *fidRef) {
 // This simply removes it from the map and drops a reference.
 func (cs *connState) DeleteFID(fid fid) error {
 	cs.fidMu.Lock()
-	defer cs.fidMu.Unlock()
 	fidRef, ok := cs.fids[fid]
+	delete(cs.fids, fid)
+	cs.fidMu.Unlock()
 	if !ok {
 		return linux.EBADF
 	}
-	delete(cs.fids, fid)
+	// Drop the reference without holding fidMu: the last DecRef calls
+	// into the backend (File.Close).
 	return fidRef.DecRef()
 }
 
